@@ -281,3 +281,66 @@ def h8(ctx: Ctx) -> None:
     from .c06 import r3 as session_span_rule
 
     session_span_rule(ctx)
+
+
+@rule("C14.R4", "the mistaken order is determined by the shock alone: every option of an order that its submitter chooses through the constructor and that the engine reads is overridden by the replacement (the rest identifies the order: owner, market, id, acceptance time)", "T1 field coverage: constructor parameters of Order vs fields written by the replacement", floor=1)
+def r4(ctx: Ctx) -> None:
+    import ast as _ast
+
+    p = ctx.program
+    ini = ctx.func("Order.__init__")
+    f = ctx.func(f"{OMS}.hooked_before_order")
+    params = [x for x in ini.params if x != "self"]
+    field_of: Dict[str, str] = {}
+    for pa in ctx.paths("Order.__init__"):
+        if pa.exit[0] == "raise":
+            continue
+        for e in pa.walk_events():
+            if e.kind == "store" and e.attr is not None and key(strip_ver(e.base)) == "self":
+                for x in params:
+                    if key(strip_ver(e.value)) == x:
+                        field_of[x] = e.attr
+    ctx.require(len(field_of) >= 5, "C14.R4: Order.__init__ no longer stores its parameters as fields")
+    overridden: Optional[set] = None
+    for pa in ctx.paths(f.qualname):
+        if pa.exit[0] == "raise":
+            continue
+        got = {e.attr for e in pa.walk_events() if e.kind == "store" and e.attr is not None and key(strip_ver(e.base)) == "order"}
+        if got:
+            overridden = got if overridden is None else (overridden & got)
+    ctx.require(bool(overridden), f"{OMS}.hooked_before_order: no path writes fields of the order")
+    assert overridden is not None
+    identity = {"agent_id", "market_id", "order_id", "placed_at"}
+    inherited = []
+    for x in params:
+        a = field_of.get(x)
+        if a is None:
+            ctx.unrec(ini, ini.node, f"constructor parameter `{x}` of Order", "it is not stored as a field of its own: what the replacement would have to override is not decided")
+            continue
+        if a in overridden or a in identity:
+            continue
+        owners = [c for c in p.classes if c != "Order" and not p.is_subclass(c, "Order") and a in ctx.ctab.attrs.get(c, {})]
+        readers = []
+        for g in p.all_functions():
+            if g.cls is not None and (g.cls.name == "Order" or p.is_subclass(g.cls.name, "Order")):
+                continue
+            if g.qualname.startswith(OMS + "."):
+                continue
+            for n in _ast.walk(g.node):
+                if isinstance(n, _ast.Attribute) and n.attr == a and isinstance(n.ctx, _ast.Load) and not (isinstance(n.value, _ast.Name) and n.value.id == "self"):
+                    readers.append(g.qualname)
+                    break
+        if not readers:
+            continue  # an option nothing in the engine reads cannot change what happens to the mistaken order
+        if owners:
+            ctx.unrec(f, f.node, f"Order.{a} is not overridden by the replacement", f"other classes ({', '.join(owners[:3])}) have an attribute of that name: whether {', '.join(readers[:3])} read the order's is not decided")
+            continue
+        inherited.append(f"{a} (read by {', '.join(sorted(set(readers))[:3])})")
+    ctx.check(not inherited, f, f.node, f"{OMS}: the replacement overrides every submitter-chosen option of the order that the engine reads", f"fields written: {', '.join(sorted(overridden))}; kept: {', '.join(sorted(identity))}", ("the mistaken order inherits from the replaced order: " + "; ".join(inherited)) if inherited else f"all of {', '.join(sorted(set(field_of.values()) - identity))} overridden")
+
+
+@rule("C14.H9", "mechanism shared with C06: what a market records as fundamental price on a clock tick is the generator's value for time + 1, asked for at that moment (so a path rescaled or regenerated by a shock is the one recorded from the next step on)", "T5 + T7 (same rule as C06.R2)", floor=3)
+def h9(ctx: Ctx) -> None:
+    from .c06 import r2 as step_rule
+
+    step_rule(ctx)
